@@ -21,9 +21,15 @@ from qce_circuit.connectivity.intrf_channel_identifier import QubitIDObj  # noqa
 GKN = {'RO': GlobalRegistryKey.READOUT, 'MW': GlobalRegistryKey.MICROWAVE, 'FL': GlobalRegistryKey.FLUX, 'RST': GlobalRegistryKey.RESET}
 
 
-def structure(circ, grid, rnd, nsamples):
+def structure(circ, grid, rnd, nsamples, probe=False):
     R = Recorder()
     S = circ.circuit_structure
+    warm = None
+    if probe:
+        # the schedule as the public API reports it when the duration is asked first and the listing afterwards (a freshly
+        # constructed circuit, nothing queried before): judged by the same predicates as the computed schedules
+        _ = circ.duration
+        warm = {R.oid(o): [q(o.start_time), q(o.end_time)] for o in circ.operations}
     snap = R.snapshot(S, cold=True, acq=False)
     nodes = {}
     for i, o in snap['leaves'].items():
@@ -63,7 +69,7 @@ def structure(circ, grid, rnd, nsamples):
         for i, c in s2['comps'].items():
             times[i] = [c['start_c'], c['start_c'] + c['dur_c']]
         samples.append({'cfg': cfg, 'times': times})
-    return {'nodes': nodes, 'topo': order, 'grid': grid, 'samples': samples, 'n_ops': len(snap['leaves'])}
+    return {'nodes': nodes, 'topo': order, 'grid': grid, 'samples': samples, 'n_ops': len(snap['leaves']), 'warm': warm}
 
 
 def build_items(dmax, cmax, rnd):
@@ -160,11 +166,21 @@ def main(outdir, dmax, cmax, grid, seed, nsamples):
     items = build_items(dmax, cmax, rnd)
     index = []
     for name, circ in items:
-        st = structure(circ, grid, rnd, nsamples)
+        probe = name.endswith('-constructed') or name.startswith('calibration-')
+        st = structure(circ, grid, rnd, nsamples, probe=probe)
+        warm = st.pop('warm')
         st['name'] = name
         path = '%s/occ_%03d.json' % (outdir, len(index))
         json.dump(st, open(path, 'w'))
         index.append({'name': name, 'path': path, 'n_ops': st['n_ops']})
+        if warm is not None and set(warm) == set(i for i, n in st['nodes'].items() if n['t'] == 'op'):
+            rec = dict(st)
+            rec['name'] = name + '-asreported'
+            rec['samples'] = []
+            rec['recorded'] = [{'cfg': {'RO': 8, 'MW': 4, 'FL': 4, 'RST': 8}, 'times': warm}]
+            path = '%s/occ_%03d.json' % (outdir, len(index))
+            json.dump(rec, open(path, 'w'))
+            index.append({'name': rec['name'], 'path': path, 'n_ops': st['n_ops']})
     json.dump(index, open(outdir + '/index.json', 'w'))
     print(len(index))
 
